@@ -220,9 +220,22 @@ class RenameMethodsSDE(BaseSDE):
                  drift_and_diffusion='f_and_g', drift_and_diffusion_prod='f_and_g_prod'):
         super(RenameMethodsSDE, self).__init__(noise_type=sde.noise_type, sde_type=sde.sde_type)
         self._base_sde = sde
+        # A combined method left under its default name is written in terms of the SDE's `f` and `g`. Once the drift or
+        # the diffusion is taken from another method it describes a different SDE, so it isn't carried over (it is
+        # then derived from the parts); otherwise solvers reading the combined method would ignore the renaming.
+        stale = set()
+        if diffusion != 'g' and diffusion_prod == 'g_prod':
+            stale.add('g_prod')
+        if drift != 'f' or diffusion != 'g':
+            if drift_and_diffusion == 'f_and_g':
+                stale.add('f_and_g')
+            if drift_and_diffusion_prod == 'f_and_g_prod':
+                stale.add('f_and_g_prod')
         for name, value in zip(('f', 'g', 'h', 'g_prod', 'f_and_g', 'f_and_g_prod'),
                                (drift, diffusion, prior_drift, diffusion_prod, drift_and_diffusion,
                                 drift_and_diffusion_prod)):
+            if name in stale:
+                continue
             try:
                 setattr(self, name, getattr(sde, value))
             except AttributeError:
